@@ -118,23 +118,41 @@ def build(cls, case, fem):
     # boundary dictionary: left face fixed, right face prescribed (first `ncomp` components), optional symmetry planes
     f0 = fc.fields[0]
     bounds = {"left": fem.Boundary(f0, fx=float(X[:, 0].min()))}
+    expected = {}  # independent model: (point, component) -> prescribed value
+    left_pts = np.where(np.isclose(X[:, 0], X[:, 0].min()))[0]
+    right_pts = np.where(np.isclose(X[:, 0], X[:, 0].max()))[0]
+    for p in left_pts:
+        for c_ in range(f0.dim):
+            expected[(int(p), c_)] = 0.0
     nc = min(case["ncomp"], f0.dim)
     scale = 0.01 if cls == "history-plastic" else (0.3 if cls in ("mixed", "condensed") else 1.0)
-    for k in range(nc):
-        skip = [1] * f0.dim
-        skip[k] = 0
-        val = scale * case["move"][k] * (float(np.ptp(X[:, 0])))
-        if case["arrayvalue"] and k == 0:
-            npts = int(np.isclose(X[:, 0], X[:, 0].max()).sum())
-            val = np.full(npts, val)
-        bounds[f"right-{k}"] = fem.Boundary(f0, fx=float(X[:, 0].max()), skip=tuple(skip), value=val)
+    vals = [scale * case["move"][k] * (float(np.ptp(X[:, 0]))) for k in range(nc)]
+    if case["arrayvalue"] and nc >= 2:
+        # one boundary with a per-component array value (one entry per non-skipped component)
+        skip = [0] * nc + [1] * (f0.dim - nc)
+        bounds["right"] = fem.Boundary(f0, fx=float(X[:, 0].max()), skip=tuple(skip), value=np.array(vals))
+    else:
+        for k in range(nc):
+            skip = [1] * f0.dim
+            skip[k] = 0
+            val = vals[k]
+            if case["arrayvalue"] and k == 0:
+                val = np.full(len(right_pts), val)
+            bounds[f"right-{k}"] = fem.Boundary(f0, fx=float(X[:, 0].max()), skip=tuple(skip), value=val)
+    for p in right_pts:
+        for k in range(nc):
+            expected[(int(p), k)] = vals[k]
     if cls != "axisymmetric":
         for a in range(1, f0.dim):
             if case["sym"][a]:
                 skip = [1] * f0.dim
                 skip[a] = 0
                 bounds[f"sym-{a}"] = fem.Boundary(f0, **{"f" + "xyz"[a]: float(X[:, a].min())}, skip=tuple(skip))
-    return mesh, info, fc, bounds, make_items, X
+                for p in np.where(np.isclose(X[:, a], X[:, a].min()))[0]:
+                    expected.setdefault((int(p), a), 0.0)
+                    if expected[(int(p), a)] != 0.0:
+                        expected[(int(p), a)] = None  # overlapping boundaries with different values: either is admissible
+    return mesh, info, fc, bounds, make_items, X, expected
 
 
 def reaction_norms(f, dof1, dof0):
@@ -145,7 +163,7 @@ def check(cls, case, rec):
     fem = import_felupe()
     from felupe.tools._newton import fun_items
 
-    mesh, info, fc, bounds, make_items, X = build(cls, case, fem)
+    mesh, info, fc, bounds, make_items, X, expected = build(cls, case, fem)
     dof0, dof1 = fem.dof.partition(fc, bounds)
     ext0 = fem.dof.apply(fc, bounds, dof0)
     tol = 10.0 ** (-case["tolexp"])
@@ -187,6 +205,13 @@ def check(cls, case, rec):
     # u0 + (ext0 - u0) in floating point: exact up to one unit in the last place of the operands
     ulp = 4 * np.finfo(float).eps * max(1.0, float(np.abs(ext0).max()) if len(dof0) else 1.0)
     rec.close("prescribed-values-exact", float(np.abs(xv[dof0] - ext0).max()) if len(dof0) else 0.0, ulp)
+    # independent of dof.apply: the values the boundary dictionary prescribes, from the definition of the boundaries
+    u_res = res.x[0].values
+    worst = 0.0
+    for (p, c_), v in expected.items():
+        if v is not None:
+            worst = max(worst, abs(float(u_res[p, c_]) - v))
+    rec.close("field-carries-boundary-values", worst, ulp, {"arrayvalue": case["arrayvalue"]})
     rec.close("reported-norm<tol", float(res.fnorms[-1]), tol)
     # residual re-assembled by fresh items on a deep copy of the result
     xc = copy.deepcopy(res.x)
